@@ -329,6 +329,7 @@ type corpusCase struct {
 	Fixed        string `json:"fixed"`
 	CSS          string `json:"css"`
 	SkipComments bool   `json:"skipComments"`
+	Rule         string `json:"rule"` // "" = token level; else the rule-level entry point (stylesheet, rules, decls, blocks)
 }
 
 // corpus runs /verif/corpus/C20/*.json first: minimal inputs of repaired serializer defects; the
@@ -346,7 +347,15 @@ func (rn *runner) corpus() error {
 			return fmt.Errorf("corpus file %s: unreadable or empty (%v)", f, err)
 		}
 		before := rn.out.Evaluations
-		if err := rn.one(c.CSS, c.SkipComments, "corpus", 0); err != nil {
+		if c.Rule != "" {
+			for _, mode := range ruleModes {
+				if mode.name == c.Rule {
+					if err := rn.rules(c.CSS, c.SkipComments, mode, "corpus", 0); err != nil {
+						return err
+					}
+				}
+			}
+		} else if err := rn.one(c.CSS, c.SkipComments, "corpus", 0); err != nil {
 			return err
 		}
 		if rn.out.Evaluations == before {
